@@ -11,6 +11,7 @@ import Complgen.Cert.Det
 import Complgen.Spec.Den
 import Complgen.Spec.Warn
 import Complgen.Spec.Complete
+import Complgen.Proofs.SpecAuto
 import Complgen.Gen.Chains
 import Complgen.Gen.Tables
 import Complgen.Gen.Diag
@@ -217,7 +218,10 @@ def handle (line : String) : String :=
     | some sh, some g =>
       let m := Spec.meaning g sh
       let a := (Spec.toSRx Spec.wordKey m).toKAuto
-      s!"ok {KAuto.wire a} ## {m.text.trimAsciiEnd.toString} ## {" ".intercalate ((Spec.wordsOf m).map Spec.wordKey)} ## {" ".intercalate ((Spec.wordsOf m).map fun c => hashKey c.eraseSpans.text)}"
+      -- the hypotheses of `Spec.specAuto_correct` on this grammar: construction finished, no empty alternative
+      let fin := if Spec.finishedB (Spec.toSRx Spec.wordKey m) then 1 else 0
+      let nea := if Spec.NoEmptyAlt m then 1 else 0
+      s!"ok {KAuto.wire a} ## {m.text.trimAsciiEnd.toString} ## {" ".intercalate ((Spec.wordsOf m).map Spec.wordKey)} ## {" ".intercalate ((Spec.wordsOf m).map fun c => hashKey c.eraseSpans.text)} ## fin={fin} nea={nea}"
     | _, _ => "bad-op"
   | "pick" :: sh :: name :: rest =>
     match shellOf sh, Hex.decode name, readGrammar (" ".intercalate rest) with
